@@ -9,9 +9,9 @@ NSHARD = NCPU
 
 # lens: the observable fields a property constrains (a divergence elsewhere belongs to another property)
 PROPS = {
-    "C01": dict(families=["scalar-s", "scalar-n"], lens={"vals", "called", "err"}, rand=("C01", 6000, 150000),
+    "C01": dict(families=["scalar-s", "scalar-n", "setvalue"], lens={"vals", "called", "err", "seterr"}, rand=("C01", 6000, 150000),
                 preds=["ScalarExact", "FlagSemantics", "CalledExact"]),
-    "C02": dict(families=["multi-ss", "multi-is", "multi-fs", "multi-sm"], lens={"vals", "err", "rest"}, rand=("C02", 6000, 150000),
+    "C02": dict(families=["multi-ss", "multi-is", "multi-fs", "multi-sm", "setvalue"], lens={"vals", "err", "rest", "seterr"}, rand=("C02", 6000, 150000),
                 preds=["IntakeCount", "StoredInOrder", "MapStored"]),
     "C03": dict(families=["conserve", "conserve-n"], lens={"rest"}, rand=("C03", 6000, 150000),
                 preds=["Conservation", "UnknownNeverDropped"]),
@@ -29,7 +29,7 @@ PROPS = {
                 preds=["ExactlyOneFn", "DeepestCommand"]),
     "C11": dict(families=["required"], lens={"err", "derr", "ran", "helpof", "writer"}, rand=("C11", 6000, 600000),
                 preds=["RequiredEnforced"]),
-    "C12": dict(families=["env", "valid"], lens={"vals", "called", "as"}, rand=("C12", 6000, 800000),
+    "C12": dict(families=["env", "valid", "setvalue"], lens={"vals", "called", "as", "seterr"}, rand=("C12", 6000, 800000),
                 preds=["EnvPrecedence", "CalledExact", "UntouchedKeepDefault"]),
     "C17": dict(families=["complete", "complete-eq"], lens={"comps", "exits", "ran", "writer"}, rand=("C17", 6000, 800000),
                 preds=["CandidatesExact", "OfferedAccepted"]),
